@@ -823,7 +823,7 @@ fn run_ext_ops(dec: Dec, opts: &RunOpts, slot: u64, rounds: usize) -> RunOut {
             let mut verdict: Option<Violation> = None;
             for round in 0..rounds {
                 ud += 16;
-                let kind = s.dec.choose(K::Op, 9);
+                let kind = s.dec.choose(K::Op, 10);
                 nops += 1;
                 let v: Option<Violation> = match kind {
                     // ---- connect
@@ -1145,6 +1145,55 @@ fn run_ext_ops(dec: Dec, opts: &RunOpts, slot: u64, rounds: usize) -> RunOut {
                             }
                         }
                     }
+                    // ---- wait for one completion, reap exactly one (no draining in between)
+                    9 => {
+                        kinds.insert("await_single");
+                        let n = 2 + s.dec.choose(K::Arg, 4) as usize;
+                        let asynch = s.dec.chance(K::Arg, 3, 4);
+                        let dfa_fd = fd_of(dfa);
+                        let mut v = None;
+                        for i in 0..n {
+                            let u = ud + i as u64;
+                            let name = UnixString::try_from_string(format!("w{round}_{i}")).unwrap();
+                            let e = unsafe { Sqe::new_mkdirat(Some(dfa_fd), &name, Mode::from(0o755), u, if asynch { IoUringSQEFlags::IOSQE_ASYNC } else { no }) };
+                            let Some(slot) = ring.get_next_sqe_slot() else {
+                                return ext_viol("AwaitSingle", "no-sqe-slot", format!("no submission slot for entry {i} although every earlier entry has completed"));
+                            };
+                            unsafe { slot.write(e) };
+                            ring.flush_submission_queue();
+                            loop {
+                                match io_uring_enter(ring.fd, 1, 1, IoUringEnterFlags::IORING_ENTER_GETEVENTS) {
+                                    Ok(_) => break,
+                                    Err(e) if e.code == Some(rusl::error::Errno::EINTR) => {}
+                                    Err(e) if e.code == Some(rusl::error::Errno::ETIME) => return ext_viol("AwaitSingle", "completion-missing", "no completion within 5 s".into()),
+                                    Err(e) => return ext_viol("AwaitSingle", "enter-failed", format!("{e:?}")),
+                                }
+                            }
+                            // the wait for one completion has returned: one completion is there to reap
+                            match ring.get_next_cqe() {
+                                Some(c) if c.0.user_data == u && c.0.res == 0 => {}
+                                Some(c) => {
+                                    v = ext_viol("AwaitSingle", "wrong-completion", format!("entry {i}: reaped user_data {} res {} after waiting for user_data {u}", c.0.user_data, c.0.res));
+                                    break;
+                                }
+                                None => {
+                                    v = ext_viol("AwaitSingle", "nothing-to-reap-after-wait", format!("submit one entry, wait for one completion, reap one: at repetition {i} io_uring_enter(min_complete = 1) returned but get_next_cqe() returned None{}", if asynch { " (entries flagged IOSQE_ASYNC)" } else { "" }));
+                                    break;
+                                }
+                            }
+                            let twin = std::ffi::CString::new(format!("w{round}_{i}")).unwrap();
+                            unsafe { libc::mkdirat(dfb, twin.as_ptr(), 0o755) };
+                        }
+                        // give the last slot back / pick up what a failed repetition left in flight
+                        let mut spins = 0;
+                        while v.is_some() && spins < 2000 && ring.get_next_cqe().is_none() {
+                            spins += 1;
+                            std::thread::sleep(std::time::Duration::from_micros(100));
+                        }
+                        while ring.get_next_cqe().is_some() {}
+                        log.push(format!("await_single x{n} async {asynch} -> {}", if v.is_some() { "violation" } else { "ok" }));
+                        v
+                    }
                     // ---- linked chain of directory operations
                     _ => {
                         kinds.insert("linked");
@@ -1299,6 +1348,7 @@ fn run_ext_ops(dec: Dec, opts: &RunOpts, slot: u64, rounds: usize) -> RunOut {
             "recvmsg" => "ops.kind.recvmsg",
             "poll_add" => "ops.kind.poll_add",
             "fixed" => "ops.kind.fixed_buffers",
+            "await_single" => "ops.kind.await_single",
             _ => "ops.kind.linked_chain",
         };
         out.counters.insert(key, 1);
